@@ -14,7 +14,9 @@ PRELUDE = r'''
 // injected before every include: attributable EMBOSS_CHECK failures
 #include <cstdio>
 #include <cstdlib>
+extern void (*verif_flush_partial)();
 [[noreturn]] inline void verif_check_fail(const char *kind, const char *expr, const char *file, int line) {
+  if (verif_flush_partial) verif_flush_partial();
   std::fflush(stdout);
   std::fprintf(stderr, "EMBOSS_CHECK_FAILED %s %s %s:%d\n", kind, expr, file, line);
   std::fflush(stderr);
@@ -36,6 +38,8 @@ COMMON = r'''
 #include <vector>
 
 static std::ostringstream *g_out;
+void (*verif_flush_partial)() = nullptr;
+static void flush_partial_record() { if (g_out) { std::cout << g_out->str() << "#PARTIAL" << std::endl; } }
 static inline void put(const std::string &k, const std::string &v) { (*g_out) << k << "=" << v << "\n"; }
 static inline void putb(const std::string &k, bool v) { put(k, v ? "1" : "0"); }
 
@@ -155,33 +159,171 @@ class Emitter(object):
             bits *= 2
         return "static_cast< ::std::%sint%d_t>(%s)" % ("" if p.kind == "int" else "u", bits, expr)
 
-    def emit(self, header_name):
-        L = self.lines
+    def make_view_expr(self, s, mutable=True):
+        args = "".join(self.param_cpp(pp, "params[%d]" % j) + ", " for j, pp in enumerate(s.params))
+        return "::%s::Make%sView(%sp, n)" % (self.ns, s.name, args)
+
+    def tops(self):
+        return [s for s in self.m.structs if s.kind == "struct"]
+
+    def emit(self, header_name, family="obs"):
+        L = self.lines = []
         L.append('#include "%s"' % header_name)
         L.append(COMMON)
-        structs = [s for s in self.m.structs]
-        for s in structs:
+        getattr(self, "emit_" + family)()
+        L.append(MAIN)
+        return "\n".join(L)
+
+    # -- obs ---------------------------------------------------------------------
+    def emit_obs(self):
+        L = self.lines
+        for s in self.m.structs:
             L.append("template <class V> static void dump_%s(const V &v, const std::string &p);" % s.name)
-        for s in structs:
+        for s in self.m.structs:
             self.emit_dumper(s)
-        # observe entry per top-level struct (bits types have no Make*View)
-        tops = [s for s in structs if s.kind == "struct"]
-        L.append("static void observe(int sidx, const std::vector<long long> &params, unsigned char *p, size_t n) {")
+        L.append("static void run_op(const std::string &op, int sidx, const std::vector<long long> &params, "
+                 "const std::string &hex, std::istringstream &in) {")
+        L.append("  Buf b(unhex(hex)); unsigned char *p = b.p; size_t n = b.n; (void)op; (void)in;")
         L.append("  switch (sidx) {")
-        for i, s in enumerate(tops):
-            args = "".join(self.param_cpp(pp, "params[%d]" % j) + ", " for j, pp in enumerate(s.params))
-            L.append("    case %d: { auto v = ::%s::Make%sView(%sp, n); dump_%s(v, \"\"); break; }" % (
-                i, self.ns, s.name, args, s.name))
+        for i, s in enumerate(self.tops()):
+            L.append("    case %d: { auto v = %s; dump_%s(v, \"\"); break; }" % (i, self.make_view_expr(s), s.name))
         L.append("    default: break;")
         L.append("  }")
         L.append("}")
-        L.append(MAIN)
-        return "\n".join(L)
+
+    # -- write -------------------------------------------------------------------
+    def leaf_expr(self, path):
+        e = "v"
+        for kind, x in path:
+            e += (".%s()" % x) if kind == "f" else ("[%d]" % x)
+        return e
+
+    def emit_write(self):
+        L = self.lines
+        L.append("static void run_op(const std::string &op, int sidx, const std::vector<long long> &params, "
+                 "const std::string &hex, std::istringstream &in) {")
+        L.append("  Buf b(unhex(hex)); unsigned char *p = b.p; size_t n = b.n; (void)op;")
+        L.append("  int leaf; std::string sgn, vs; in >> leaf >> sgn >> vs;")
+        L.append("  long long sval = 0; unsigned long long uval = 0;")
+        L.append("  if (sgn == \"s\") { sval = std::stoll(vs); uval = static_cast<unsigned long long>(sval); }")
+        L.append("  else { uval = std::stoull(vs); sval = static_cast<long long>(uval); }")
+        L.append("  (void)sval; (void)uval;")
+        L.append("  switch (sidx) {")
+        for i, s in enumerate(self.tops()):
+            L.append("    case %d: {" % i)
+            L.append("      auto v = %s;" % self.make_view_expr(s))
+            L.append("      switch (leaf) {")
+            for j, leaf in enumerate(writable_leaves(self.m, s)):
+                L.append("        case %d: {" % j)
+                L.append("          auto f = %s;" % self.leaf_expr(leaf["path"]))
+                k = leaf["kind"]
+                if k in ("uint", "int"):
+                    L.append("          if (sgn == \"s\") { putb(\"could\", f.CouldWriteValue(sval)); putb(\"try\", f.TryToWrite(sval)); }")
+                    L.append("          else { putb(\"could\", f.CouldWriteValue(uval)); putb(\"try\", f.TryToWrite(uval)); }")
+                elif k == "vint":
+                    L.append("          typedef typename decltype(f)::ValueType VT; VT x = static_cast<VT>(sval);")
+                    L.append("          put(\"arg\", valstr(x)); putb(\"could\", f.CouldWriteValue(x)); putb(\"try\", f.TryToWrite(x));")
+                elif k == "flag":
+                    L.append("          bool x = (uval & 1) != 0; putb(\"could\", f.CouldWriteValue(x)); putb(\"try\", f.TryToWrite(x));")
+                elif k == "float":
+                    L.append("          typedef typename decltype(f)::ValueType FT; FT x; "
+                             "if (sizeof(FT) == 4) { std::uint32_t r = static_cast<std::uint32_t>(uval); std::memcpy(&x, &r, 4); } "
+                             "else { std::uint64_t r = uval; std::memcpy(&x, &r, 8); }")
+                    L.append("          putb(\"could\", f.CouldWriteValue(x)); putb(\"try\", f.TryToWrite(x));")
+                elif k == "enum":
+                    L.append("          typedef typename decltype(f)::ValueType ET; typedef typename std::underlying_type<ET>::type UT;")
+                    L.append("          ET x = static_cast<ET>(sgn == \"s\" ? static_cast<UT>(sval) : static_cast<UT>(uval));")
+                    L.append("          put(\"arg\", valstr(x)); putb(\"could\", f.CouldWriteValue(x)); putb(\"try\", f.TryToWrite(x));")
+                else:  # bcd
+                    L.append("          typedef typename decltype(f)::ValueType VT; VT x = static_cast<VT>(uval);")
+                    L.append("          put(\"arg\", valstr(x)); putb(\"could\", f.CouldWriteValue(x)); putb(\"try\", f.TryToWrite(x));")
+                L.append("          put(\"buf\", tohex(p, n)); putb(\"ok\", f.Ok()); if (f.Ok()) put(\"val\", valstr(f.Read()));")
+                L.append("          break; }")
+            L.append("        default: break;")
+            L.append("      }")
+            L.append("      break; }")
+        L.append("    default: break;")
+        L.append("  }")
+        L.append("}")
+
+
+def _writable_virtual(s, f):
+    """(target field name, a, b) with v = a*target + b (a in +1/-1) when f is
+    an alias or add/subtract transform of a writable field of the same
+    structure, else None."""
+    e = f.expr
+    if f.cond is not None or f.requires is not None:
+        return None
+    if e[0] == "ref" and len(e[1]) == 1:
+        inner = _target_of(s, e[1][0])
+        return inner
+    if e[0] == "op" and e[1] in ("+", "-") and len(e[2]) == 2:
+        x, y = e[2]
+        if x[0] == "ref" and len(x[1]) == 1 and y[0] == "num":
+            t = _target_of(s, x[1][0])
+            if t:
+                return (t[0], t[1], t[2] + (y[1] if e[1] == "+" else -y[1]))
+        if y[0] == "ref" and len(y[1]) == 1 and x[0] == "num":
+            t = _target_of(s, y[1][0])
+            if t:
+                if e[1] == "+":
+                    return (t[0], t[1], t[2] + x[1])
+                return (t[0], -t[1], x[1] - t[2])
+    return None
+
+
+def _alias_chain_is_pure(s, f):
+    while f is not None and f.kind == "virtual":
+        if not (f.expr[0] == "ref" and len(f.expr[1]) == 1):
+            return False
+        f = s.field(f.expr[1][0])
+    return f is not None
+
+
+def _target_of(s, name):
+    g = s.field(name)
+    if g is None:
+        return None  # a parameter: read-only
+    if g.kind == "virtual":
+        return _writable_virtual(s, g)
+    if g.kind == "phys" and g.type.kind in ("uint", "int", "bcd") and g.cond is None:
+        return (g.name, 1, 0)
+    return None
+
+
+def writable_leaves(module, s, depth=0, prefix=()):
+    """Writable scalar leaves reachable from a view of s: list of
+    {path, kind, field?}.  Shared by the driver emitter and the model."""
+    out = []
+    for f in s.all_named_fields():
+        if f.kind == "virtual":
+            t = _writable_virtual(s, f)
+            if t is not None and depth == 0:
+                tgt = s.field(t[0])
+                pure_alias = f.expr[0] == "ref" and t[1] == 1 and t[2] == 0 and _alias_chain_is_pure(s, f)
+                out.append({"path": prefix + (("f", f.name),), "kind": tgt.type.kind if pure_alias else "vint",
+                            "virtual": t, "target_kind": tgt.type.kind})
+            continue
+        t = f.type
+        path = prefix + (("f", f.name),)
+        if _is_scalar(t):
+            out.append({"path": path, "kind": t.kind})
+        elif t.kind == "struct" and depth < 2:
+            out.extend(writable_leaves(module, t.ref, depth + 1, path))
+        elif t.kind == "array":
+            et = t.elem
+            for i in (0, 1):
+                if _is_scalar(et):
+                    out.append({"path": path + (("i", i),), "kind": et.kind})
+                elif et.kind == "struct" and depth < 1:
+                    out.extend(writable_leaves(module, et.ref, depth + 2, path + (("i", i),)))
+    return out[:60] if depth == 0 else out
 
 
 MAIN = r'''
 int main(int argc, char **argv) {
   std::ios::sync_with_stdio(false);
+  verif_flush_partial = &flush_partial_record;
   std::string line;
   while (std::getline(std::cin, line)) {
     if (line.empty()) continue;
@@ -196,10 +338,7 @@ int main(int argc, char **argv) {
     g_out = &out;
     // announce the case first so that a sanitizer abort is attributable
     std::cout << "#CASE " << id << std::endl;
-    if (op == "obs") {
-      Buf b(unhex(hex));
-      observe(sidx, params, b.p, b.n);
-    }
+    run_op(op, sidx, params, hex, in);
     std::cout << out.str() << "#END " << id << std::endl;
   }
   return 0;
@@ -260,6 +399,10 @@ def run_cases(binary, case_lines, timeout=600):
             results[cur_id] = cur
             cur = None
             last_started = None
+        elif line.startswith("#PARTIAL") and cur is not None:
+            cur["#partial"] = "1"
+            results[cur_id] = cur
+            cur = None
         elif cur is not None and "=" in line:
             k, v = line.split("=", 1)
             cur[k] = v
@@ -279,6 +422,25 @@ def run_cases(binary, case_lines, timeout=600):
     return results, failure
 
 
+def generated_frame(rep):
+    """First stack frame inside the generated header, with structure and
+    field names abstracted: e.g. 'VirtualView::CouldWriteValue'."""
+    for line in rep.split("\n"):
+        m = re.match(r"\s*#\d+ 0x[0-9a-f]+ in (.*) (\S+\.emb\.h):\d+", line)
+        if m:
+            fn = m.group(1)
+            fn = re.sub(r"<[^<>]*>", "", fn)
+            fn = re.sub(r"<[^<>]*>", "", fn)
+            fn = re.sub(r"<[^<>]*>", "", fn)
+            fn = re.sub(r"\(.*$", "", fn)
+            parts = [p for p in fn.split("::") if p]
+            parts = parts[-2:]
+            parts = [re.sub(r"EmbossReservedVirtual\w+View", "VirtualView", p) for p in parts]
+            parts = [re.sub(r"Generic\w+View", "StructView", p) for p in parts]
+            return "::".join(parts)
+    return "?"
+
+
 def summarize_report(failure):
     """Mechanism-level summary: (kind, detail) with line numbers stripped."""
     rep = failure.get("report", "")
@@ -291,7 +453,7 @@ def summarize_report(failure):
         m = re.search(r"(\S+):\d+:\d+: runtime error: (.*)", rep)
         if m:
             msg = re.sub(r"-?\d+", "N", m.group(2))[:90]
-            return kind, "%s @%s" % (msg, os.path.basename(m.group(1)))
+            return kind, "%s @%s in %s" % (msg, os.path.basename(m.group(1)), generated_frame(rep))
     if kind == "asan":
         m = re.search(r"AddressSanitizer: (\S+)", rep)
         fr = re.findall(r"#\d+ 0x[0-9a-f]+ in (\S+) ", rep)
@@ -305,6 +467,7 @@ CANARY = r'''
 #include <cstring>
 #include <cstdio>
 #include <climits>
+void (*verif_flush_partial)() = nullptr;
 int main(int argc, char **argv) {
   if (argc > 1 && argv[1][0] == 'a') { volatile char *p = new char[4]; volatile int i = 4; char c = p[i]; std::printf("%d\n", c); }
   if (argc > 1 && argv[1][0] == 'u') { volatile int x = INT_MAX; volatile int y = x + argc; std::printf("%d\n", y); }
